@@ -86,6 +86,8 @@ def init_contract(S, pairs):
     cur = "_i%d" % ko
     lo.invariant("self.eq_relation == eq_relation and same(self.in_s, old_in_s(self))" if False else "self.eq_relation == eq_relation")
     lo.invariant("dedup_upto(self, %s)" % cur, "set-built-so-far=dedup-of-the-processed-prefix")
+    lo.invariant("len(self.starts) <= %s and iff(len(self.starts) == %s, forall(i, 0, %s, self.kept[i]))" % (cur, cur, cur),
+                 "nothing-dropped<=>as-many-stored-as-processed")
     lo.ghost_at_end("self.src = ite(not_in, aset(self.src, len(self.starts) - 1, %s - 1), self.src)" % cur)
     lo.ghost_at_end("self.dst = ite(not_in, aset(self.dst, %s - 1, len(self.starts) - 1), self.dst)" % cur)
     lo.ghost_at_end("self.wit = ite(not_in, self.wit, aset(self.wit, %s - 1, %s))" % (cur, inner_idx))
@@ -97,11 +99,15 @@ def init_contract(S, pairs):
     li.invariant("forall(j, 0, _i%d, not relf(self.eq_relation, %s, %s, self.starts[j], self.ends[j]))" % (ki, x[0], x[1]))
     if pairs:
         m.ensures("self.eq_relation == eq_relation and self.in_n == len(starts) and dedup_ok(self)", "construction=keep-iff-not-already-a-member")
+        m.ensures("len(self.starts) <= len(starts) and iff(len(self.starts) == len(starts), forall(i, 0, len(starts), self.kept[i]))",
+                  "same-length<=>nothing-dropped")
         m.ensures("forall(i, 0, len(starts), self.in_s[i] == starts[i][0] and self.in_e[i] == starts[i][1])")
     else:
         m.ensures("self.eq_relation == eq_relation")
         m.ensures("implies(force_no_dup_check, self.starts == starts and self.ends == some(ends))", "force_no_dup_check:inputs-reused-as-given")
         m.ensures("implies(not force_no_dup_check, self.in_n == len(starts) and dedup_ok(self))", "construction=keep-iff-not-already-a-member")
+        m.ensures("implies(not force_no_dup_check, len(self.starts) <= len(starts)"
+                  " and iff(len(self.starts) == len(starts), forall(i, 0, len(starts), self.kept[i])))", "same-length<=>nothing-dropped")
         m.ensures("forall(i, 0, len(starts), self.in_s[i] == starts[i] and self.in_e[i] == some(ends)[i])")
     return m
 
@@ -190,6 +196,11 @@ def unit_ops():
                     "where-each-result-span-comes-from")
         m.hint_exit("forall(k, 0, len(g_fin), implies(%s, 0 <= g_fdst(k) and g_fdst(k) < len(g_fout) and g_fout[g_fdst(k)] == g_fin[k]))" % Pc,
                     "a-qualifying-chain-element-enters-the-construction")
+        m.hint_exit("forall(i, 0, result.in_n, implies(result.kept[i], result.starts[result.dst[i]] == result.in_s[i]"
+                    " and result.ends[result.dst[i]] == result.in_e[i]))", "a-kept-input-span-is-stored")
+        m.hint_exit("forall(i, 0, result.in_n, implies(not result.kept[i], result.starts[result.wit[i]] == result.in_s[i]"
+                    " and result.ends[result.wit[i]] == result.in_e[i]))", "a-dropped-input-span-equals-a-stored-one(exact-relation)")
+        m.hint_exit("forall(i, 0, result.in_n, occurs(result, result.in_s[i], result.in_e[i]))", "every-constructor-input-span-occurs")
         m.hint_exit("forall(k, 0, len(g_fin), implies(%s, occurs(result, g_fin[k][0], g_fin[k][1])))" % Pc,
                     "complete-at-chain-level")
         m.hint_exit("forall(j, 0, len(result.starts), %s)" % (Pr % ("g_fin[g_fsrc(result.src[j])][0]", "g_fin[g_fsrc(result.src[j])][1]")),
